@@ -26,7 +26,7 @@ import (
 
 func init() {
 	oracles["C05"] = &oracle{
-		rule:  "nb: every level 1..13 x every built-in binary / assignment operator on either side, built-in prefix, postfix, call, member, index on either side, the operator itself, a second registered operator at every level; registered prefix '~' and postfix '?' next to every built-in operator class. Expected tree by level: built-in levels || 3, && 4, == != 5, < > <= >= 6, + - 7, * / % 8, prefix 9, postfix ++ -- 10, call 11, member/index 12, assignment 2 (right-associative: its right side takes every operator of level >= 2); the registered infix operator is left-associative (left operand level >= k, right operand level > k); registered prefix = level 9, registered postfix = call-level suffix (11). tree: shapes from the reference unparser with the registered levels, explicit parentheses added only where the text would be ambiguous (assignment left of a level-2 operator, prefix operator next to a level-9 operator) or where the unparser files member/index under level 11 instead of 12; hist: 4-14 calls over 9 names (with repeats) and built-in + dynamic token types: ids stable per name, pairwise distinct, >= 1000 and outside the built-in range; a call for a token that has the role already (built-in: prefix ! - ++ --, infix the 13 binary and 3 assignment operators, postfix ++ --; or registered earlier on this builder) must return an error; after every refused call a parser built from the builder must behave like one built just before it on 12 probe sources. Non-trivial = registration accepted and operator present in the source (nb/tree), at least one refused call (hist); distinct by (input, outcome)",
+		rule:  "nb: every level 1..13 x every built-in binary / assignment operator on either side, built-in prefix, postfix, call, member, index on either side, the operator itself, a second registered operator at every level; registered prefix '~' and postfix '?' next to every built-in operator class. Expected tree by level: built-in levels || 3, && 4, == != 5, < > <= >= 6, + - 7, * / % 8, prefix 9, postfix ++ -- 10, call 11, member/index 12, assignment 2 (right-associative: its right side takes every operator of level >= 2); the registered infix operator is left-associative (left operand level >= k, right operand level > k); registered prefix = level 9, registered postfix = call-level suffix (11). tree: shapes from the reference unparser with the registered levels, explicit parentheses added only where the text would be ambiguous (assignment left of a level-2 operator, prefix operator next to a level-9 operator) or where the unparser files member/index under level 11 instead of 12; hist: 4-14 calls over 9 names (with repeats) and built-in + dynamic token types: ids stable per name, pairwise distinct, >= 1000 and outside the built-in range; a call for a token that has the role already (built-in: prefix ! - ++ --, infix the 13 binary and 3 assignment operators, postfix ++ --; or registered earlier on this builder) must return an error; after every refused call a parser built from the builder must behave like one built just before it on 12 probe sources (so parsers are built between the registrations); at the end the builder must behave, on the same sources, like a fresh builder that receives the accepted registrations with no Build in between. Non-trivial = registration accepted and operator present in the source (nb/tree), at least one refused call (hist); distinct by (input, outcome)",
 		gen:   genC05,
 		check: countFailures(checkC05),
 	}
@@ -503,10 +503,11 @@ func checkHist(seed uint64, dist map[string]int) (detail, sig string) {
 		return t
 	})
 	pb := parser.NewBuilder(lb)
-	if r.chance(1, 3) {
+	tolerantMode := r.chance(1, 3)
+	if tolerantMode {
 		pb.WithTolerantMode(true)
 	}
-	observe := func() string {
+	observeOn := func(pb *parser.Builder) string {
 		var parts []string
 		for _, src := range c05ProbeSources {
 			p := pb.Build(src)
@@ -519,6 +520,14 @@ func checkHist(seed uint64, dist map[string]int) (detail, sig string) {
 		}
 		return strings.Join(parts, "\n")
 	}
+	observe := func() string { return observeOn(pb) }
+	type regOp struct {
+		role byte
+		ty   token.Type
+		prec int
+	}
+	var acceptedOps []regOp
+	var nameOrder []string
 	ids := map[string]token.Type{}
 	roles := map[string]bool{} // role byte + type
 	var log []string
@@ -541,6 +550,7 @@ func checkHist(seed uint64, dist map[string]int) (detail, sig string) {
 			return ty, fmt.Sprintf("RegisterTokenType(%q) returned %d, inside the built-in range; history %s", name, int(ty), strings.Join(log, " "))
 		}
 		ids[name] = ty
+		nameOrder = append(nameOrder, name)
 		if sym, ok := c05Syms[name]; ok {
 			retag[sym] = ty
 		}
@@ -569,6 +579,7 @@ func checkHist(seed uint64, dist map[string]int) (detail, sig string) {
 		before := observe()
 		var err error
 		viaPlugin := r.chance(1, 3)
+		prec := 1 + r.intn(13)
 		do := func(pb *parser.Builder) {
 			switch role {
 			case 'P':
@@ -576,7 +587,7 @@ func checkHist(seed uint64, dist map[string]int) (detail, sig string) {
 					return &ast.UnaryExpression{Token: tok, Operator: tok.Literal, Right: right()}
 				})
 			case 'I':
-				err = pb.RegisterInfixOperator(ty, 1+r.intn(13), func(tok token.Token, left ast.Expression, right func() ast.Expression) ast.Expression {
+				err = pb.RegisterInfixOperator(ty, prec, func(tok token.Token, left ast.Expression, right func() ast.Expression) ast.Expression {
 					return &ast.BinaryExpression{Token: tok, Left: left, Operator: tok.Literal, Right: right()}
 				})
 			case 'O':
@@ -613,6 +624,56 @@ func checkHist(seed uint64, dist map[string]int) (detail, sig string) {
 			accepted++
 			dist["hist: accepted"]++
 			roles[key] = true
+			acceptedOps = append(acceptedOps, regOp{role, ty, prec})
+		}
+	}
+	// the parsers of this builder (built between the registrations, and now) behave like the
+	// parsers of a fresh builder that receives the accepted registrations with no Build in between
+	{
+		lb2 := lexer.NewBuilder()
+		retag2 := map[string]token.Type{}
+		lb2.UseTokenInterceptor(func(l *lexer.Lexer, next func() token.Token) token.Token {
+			t := next()
+			if t.Type == token.ILLEGAL {
+				if ty, ok := retag2[t.Literal]; ok {
+					t.Type = ty
+				}
+			}
+			return t
+		})
+		for _, name := range nameOrder {
+			ty := lb2.RegisterTokenType(name)
+			if sym, ok := c05Syms[name]; ok {
+				retag2[sym] = ty
+			}
+		}
+		pb2 := parser.NewBuilder(lb2)
+		if tolerantMode {
+			pb2.WithTolerantMode(true)
+		}
+		for _, o := range acceptedOps {
+			var err error
+			switch o.role {
+			case 'P':
+				err = pb2.RegisterPrefixOperator(o.ty, func(tok token.Token, right func() ast.Expression) ast.Expression {
+					return &ast.UnaryExpression{Token: tok, Operator: tok.Literal, Right: right()}
+				})
+			case 'I':
+				err = pb2.RegisterInfixOperator(o.ty, o.prec, func(tok token.Token, left ast.Expression, right func() ast.Expression) ast.Expression {
+					return &ast.BinaryExpression{Token: tok, Left: left, Operator: tok.Literal, Right: right()}
+				})
+			case 'O':
+				err = pb2.RegisterPostfixOperator(o.ty, func(tok token.Token, left ast.Expression) ast.Expression {
+					return &ast.PostfixExpression{Token: tok, Left: left, Operator: tok.Literal}
+				})
+			}
+			if err != nil {
+				return fmt.Sprintf("replaying the accepted registrations on a fresh builder: role %c for token type %d refused (%v); history %s", o.role, int(o.ty), err, strings.Join(log, " ")), "replay"
+			}
+		}
+		dist["hist: compared with a fresh builder (no Build between registrations)"]++
+		if a, b := observe(), observeOn(pb2); a != b {
+			return fmt.Sprintf("a builder that built parsers between its registrations behaves differently from a fresh builder with the same accepted registrations; history %s; this builder %q fresh builder %q", strings.Join(log, " "), a, b), "late"
 		}
 	}
 	// ids are still stable after all operator registrations and builds
@@ -621,7 +682,7 @@ func checkHist(seed uint64, dist map[string]int) (detail, sig string) {
 			return fmt.Sprintf("RegisterTokenType(%q) returned %d at the end, earlier %d; history %s", name, int(got), int(ty), strings.Join(log, " ")), "ids"
 		}
 	}
-	if refused > 0 {
+	if refused > 0 || accepted > 0 {
 		sig = fmt.Sprintf("hist refused=%d accepted=%d names=%d", refused, accepted, len(ids))
 	}
 	return "", sig
